@@ -72,7 +72,7 @@ func DefaultRefNameResolver(doc *T, ref ComponentRef) string {
 		if doc.url != nil {
 			commonDir := path.Dir(doc.url.Path)
 			for {
-				if commonDir == "." { // no common prefix
+				if commonDir == "." || commonDir == "/" { // no common prefix (path.Dir converges to "/" for absolute paths)
 					break
 				}
 
@@ -326,6 +326,12 @@ func (doc *T) addCallbackToSpec(c *CallbackRef, refNameResolver RefNameResolver,
 		return false
 	}
 	name := refNameResolver(doc, c)
+	if doc.Components != nil {
+		if _, ok := doc.Components.Callbacks[name]; ok {
+			c.Ref = "#/components/callbacks/" + name
+			return true
+		}
+	}
 
 	if doc.Components == nil {
 		doc.Components = &Components{}
@@ -430,6 +436,7 @@ func (doc *T) derefResponseBodies(es ResponseBodies, refNameResolver RefNameReso
 func (doc *T) derefParameter(p Parameter, refNameResolver RefNameResolver, parentIsExternal bool) {
 	isExternal := doc.addSchemaToSpec(p.Schema, refNameResolver, parentIsExternal)
 	doc.derefContent(p.Content, refNameResolver, parentIsExternal)
+	doc.derefExamples(p.Examples, refNameResolver, parentIsExternal)
 	if p.Schema != nil {
 		doc.derefSchema(p.Schema.Value, refNameResolver, isExternal || parentIsExternal)
 	}
@@ -463,7 +470,7 @@ func (doc *T) derefPaths(paths map[string]*PathItem, refNameResolver RefNameReso
 			for _, name := range componentNames(op.Callbacks) {
 				cb := op.Callbacks[name]
 				isExternal := doc.addCallbackToSpec(cb, refNameResolver, pathIsExternal)
-				if cb.Value != nil {
+				if cb.Value != nil && !doc.isVisitedCallback(cb.Value) {
 					cbValue := (*cb.Value).Map()
 					doc.derefPaths(cbValue, refNameResolver, pathIsExternal || isExternal)
 				}
@@ -515,6 +522,11 @@ func (doc *T) InternalizeRefs(ctx context.Context, refNameResolver func(*T, Comp
 			}
 		}
 		doc.derefHeaders(components.Headers, refNameResolver, false)
+		for _, h := range components.Headers {
+			if h != nil && h.Value != nil {
+				h.Ref = "" // always dereference the top level
+			}
+		}
 		for _, name := range componentNames(components.RequestBodies) {
 			req := components.RequestBodies[name]
 			isExternal := doc.addRequestBodyToSpec(req, refNameResolver, false)
@@ -524,20 +536,40 @@ func (doc *T) InternalizeRefs(ctx context.Context, refNameResolver func(*T, Comp
 			}
 		}
 		doc.derefResponseBodies(components.Responses, refNameResolver, false)
+		for _, r := range components.Responses {
+			if r != nil && r.Value != nil {
+				r.Ref = "" // always dereference the top level
+			}
+		}
 		for _, name := range componentNames(components.SecuritySchemes) {
 			ss := components.SecuritySchemes[name]
 			doc.addSecuritySchemeToSpec(ss, refNameResolver, false)
+			if ss != nil && ss.Value != nil {
+				ss.Ref = "" // always dereference the top level
+			}
 		}
 		doc.derefExamples(components.Examples, refNameResolver, false)
+		for _, e := range components.Examples {
+			if e != nil && e.Value != nil {
+				e.Ref = "" // always dereference the top level
+			}
+		}
 		doc.derefLinks(components.Links, refNameResolver, false)
+		for _, l := range components.Links {
+			if l != nil && l.Value != nil {
+				l.Ref = "" // always dereference the top level
+			}
+		}
 
 		for _, name := range componentNames(components.Callbacks) {
 			cb := components.Callbacks[name]
 			isExternal := doc.addCallbackToSpec(cb, refNameResolver, false)
 			if cb != nil && cb.Value != nil {
 				cb.Ref = "" // always dereference the top level
-				cbValue := (*cb.Value).Map()
-				doc.derefPaths(cbValue, refNameResolver, isExternal)
+				if !doc.isVisitedCallback(cb.Value) {
+					cbValue := (*cb.Value).Map()
+					doc.derefPaths(cbValue, refNameResolver, isExternal)
+				}
 			}
 		}
 	}
